@@ -23,6 +23,7 @@ TRUSTED = [
     "Coq 8.16.1 kernel + coqc (vm_compute only for the closed Example and the refutation witness); no native_compute",
     "extraction: ExtrOcamlBasic only, no Extract Constant; ocaml/driver.ml s-expression I/O (20 sampled pqref conversations per run are "
     "re-evaluated by the kernel: extract_agrees_k, harness/xcheck.py)",
+    "Python compares str by code points (then C04_utf8_order gives the byte order of the stored UTF-8 text; checked on the text pool)",
     "pandas Series.max()/min() (skipna) and Index.max()/min() return a largest/smallest non-null non-NaN element under the "
     "dtype's order, and that order agrees with the Parquet ordering of the physical value the cell is stored as (glue; "
     "exercised on every generated column by the oracle, not modelled)",
@@ -391,11 +392,8 @@ def examine(case, path, pq=None, ctx=None):
                 # selected, orderable stored values, yet no min/max: pandas could not order the column (object dtypes) or the
                 # writer selects differently from the model
                 ctx.count("select.model-selects-writer-wrote-none", spec["kind"] if unord is not False else "ORDERABLE:" + spec["kind"])
-                if unord is False:
-                    ctx.extra["select_drift"] = ctx.extra.get("select_drift", 0) + 1
             elif not sel_model and has_mm:
                 ctx.count("select.writer-selects-model-does-not", spec["kind"])
-                ctx.extra["select_drift"] = ctx.extra.get("select_drift", 0) + 1
             else:
                 ctx.count("select.agree", int(sel_model))
             sel = int(has_mm)
@@ -457,7 +455,6 @@ def run(ctx):
     bad = C.hygiene()
     ctx.obligation("hygiene: no Admitted/Axiom/Parameter/... in coq/", not bad, "; ".join(bad))
     C.use_shadow()
-    pq = X.RecPqref(ctx.rng)
     rng = ctx.rng
     ctx.rule = ("files: 2-6 columns of random kinds (every numpy/nullable int width incl. unsigned >= 2^63, bool, float16/32/64 with "
                 "NaN/+-inf/-0.0, datetime ns/us/ms/s naive, tz-aware and INT96, timedelta, str with code points beyond the BMP, object "
@@ -465,68 +462,122 @@ def run(ctx):
                 "order and unused categories), value patterns random/sorted-with-ties/strict/extremes-late/constant, null patterns "
                 "none/few/many/all, 1-5 row groups, v1/v2 pages, MAX_PAGE_SIZE 16..default, stats True/False/'auto'/list, has_nulls "
                 "True/'infer'/list, compression; one case = one written file; trivial = single row; distinct = distinct (columns, options)")
+    # UTF-8: the spec encoder of the model is Python's, code-point order is Python's str order, and (instance of
+    # C04_utf8_order) the byte order of the encodings is that order - on the text pool of the generators
+    pq0 = C.Pqref()
+    pool = STR_POOL + ["\u07ff", "\u0800", "\ud7ff\U00010000", "\U0010ffff\x00", "a\u00e9", "a\u0100"]
+    for a in pool:
+        ctx.correspondence("utf8_encode ~ str.encode('utf-8')", {"text": a}, pq0.call("utf8_encode", [ord(ch) for ch in a]), a.encode("utf-8"))
+    for a in pool:
+        for b in pool:
+            r = pq0.call("cp_leb", [ord(ch) for ch in a], [ord(ch) for ch in b])
+            ctx.correspondence("code-point order ~ Python str order", {"a": a, "b": b}, r, int(a <= b))
+            ctx.correspondence("byte order of the UTF-8 encodings = code-point order (C04_utf8_order)", {"a": a, "b": b}, r, int(a.encode("utf-8") <= b.encode("utf-8")))
+    pq0.close()
     nfiles = 400 if ctx.quick() else 5000
-    done = 0
-    werr = 0
     corpus = sorted(os.listdir(os.path.join(C.VERIF, "corpus", "C04"))) if os.path.isdir(os.path.join(C.VERIF, "corpus", "C04")) else []
     cases = [json.load(open(os.path.join(C.VERIF, "corpus", "C04", f))) for f in corpus if f.endswith(".json")]
     ctx.extra["corpus_cases"] = len(cases)
     while len(cases) < nfiles + ctx.extra["corpus_cases"]:
         cases.append(gen_case(rng, ctx.quick()))
-    for i, case in enumerate(cases):
-        path = os.path.join(ctx.scratch, "f%d.parq" % i)
-        try:
-            S.write_case(case, path)
-        except Exception as e:       # noqa  (not C04's concern: the write itself is C01/C18)
-            werr += 1
-            ctx.count("write_error", type(e).__name__)
-            if werr <= 3:
-                ctx.notes.append("write error (case skipped): %s: %s" % (type(e).__name__, str(e)[:200]))
-            continue
-        fails = examine(case, path, pq, ctx)
-        ctx.case({"cols": case["cols"], "opts": case["opts"]}, trivial=case["n"] <= 1)
-        for c in case["cols"]:
-            ctx.count("column.kind", c["kind"])
-            ctx.count("column.nulls", c["nullmode"])
-            ctx.count("column.pattern", c["pattern"])
-        ctx.count("opts.stats", case["opts"]["stats"] if not isinstance(case["opts"]["stats"], list) else "list")
-        ctx.count("opts.pages", "v2" if case["opts"].get("v2") else "v1")
-        ctx.count("opts.rowgroups", len(case["opts"]["rgo"]))
-        for cls, det in fails:
-            ctx.fail(cls, {"cols": case["cols"], "opts": case["opts"], "n": case["n"], "focus": det}, det["detail"])
-        done += 1
-        if os.path.isdir(path):
-            import shutil
-            shutil.rmtree(path, ignore_errors=True)
-        else:
-            os.unlink(path)
-    X.kernel_crosscheck(ctx, pq)
-    pq.close()
+    # the real code runs in forked workers (a native crash or a hang is a reported failure of that case, not a dead check);
+    # each worker talks to its own pqref and records what it would tell the Ctx; the parent replays the records in order
+    batch = 20
+    jobs = [{"cases": cases[i:i + batch], "base": i, "seed": rng.randrange(1 << 60)} for i in range(0, len(cases), batch)]
+    quick, scratch = ctx.quick(), ctx.scratch
+
+    def work(job):
+        import random
+        import shutil
+        rc = X.RecCtx(quick, scratch)
+        pq = _W["pq"]
+        if pq is None or pq.p.poll() is not None:
+            pq = _W["pq"] = X.RecPqref(random.Random(job["seed"]), keep=3)
+        pq.rng, pq.sample, pq.seen = random.Random(job["seed"]), [], 0
+        for k, case in enumerate(job["cases"]):
+            path = os.path.join(scratch, "f%d_%d.parq" % (os.getpid(), job["base"] + k))
+            try:
+                S.write_case(case, path)
+            except Exception as e:       # noqa  (not C04's concern: the write itself is C01/C18)
+                rc.count("write_error", type(e).__name__)
+                rc.count("write_error.detail", ("%s: %s" % (type(e).__name__, e))[:80])
+                continue
+            try:
+                fails = examine(case, path, pq, rc)
+            finally:
+                if os.path.isdir(path):
+                    shutil.rmtree(path, ignore_errors=True)
+                elif os.path.exists(path):
+                    os.unlink(path)
+            rc.case({"cols": case["cols"], "opts": case["opts"]}, case["n"] <= 1)
+            for c in case["cols"]:
+                rc.count("column.kind", c["kind"])
+                rc.count("column.nulls", c["nullmode"])
+                rc.count("column.pattern", c["pattern"])
+            rc.count("opts.stats", case["opts"]["stats"] if not isinstance(case["opts"]["stats"], list) else "list")
+            rc.count("opts.pages", "v2" if case["opts"].get("v2") else "v1")
+            rc.count("opts.rowgroups", len(case["opts"]["rgo"]))
+            rc.count("files_examined", "n")
+            for cls, det in fails:
+                rc.fail(cls, {"cols": case["cols"], "opts": case["opts"], "n": case["n"], "focus": det}, det["detail"])
+        return {"ops": rc.ops, "samples": list(pq.sample)}
+
+    samples = X.run_jobs(
+        ctx, work, jobs, init=_winit,
+        split=lambda job: [{"cases": [c], "base": job["base"] + k, "seed": job["seed"] + k} for k, c in enumerate(job["cases"])],
+        crash_cls=lambda job, r: {"component": "native-crash", "what": "crash" if "died" in r["__crashed__"] else ("hang" if "timeout" in r["__crashed__"].lower() else "harness-exception"),
+                                  "kind": job["cases"][0]["cols"][0]["kind"] if len(job["cases"]) == 1 else "batch"},
+        describe=lambda job: ({"cols": job["cases"][0]["cols"], "opts": job["cases"][0]["opts"], "n": job["cases"][0]["n"]} if len(job["cases"]) == 1
+                              else {"batch": job["cases"]}),
+        nproc=4, job_timeout=300)
+    X.kernel_crosscheck_samples(ctx, samples)
+    done = int(ctx.dist.get("files_examined", {}).get("n", 0))
+    werr = sum(ctx.dist.get("write_error", {}).values())
     ctx.extra["files_examined"] = done
     ctx.extra["write_errors"] = werr
+    ctx.extra["select_drift"] = sum(v for k, v in ctx.dist.get("select.writer-selects-model-does-not", {}).items()) + \
+        sum(v for k, v in ctx.dist.get("select.model-selects-writer-wrote-none", {}).items() if k.startswith("ORDERABLE:"))
     if werr > nfiles // 5:
         ctx.obligation("generator health: fewer than 20% of the generated files fail to write", False, "%d of %d" % (werr, nfiles))
 
 
+_W = {"pq": None}
+
+
+def _winit():
+    _W["pq"] = None
+
+
 def replay(rep):
-    """Re-write the recorded frame with the recorded options through the real writer and re-run the oracle."""
+    """Re-write the recorded frame(s) with the recorded options through the real writer and re-run the oracle - in a forked
+    worker, so that an input the real code does not survive is reported instead of killing the replay."""
     import shutil
     import tempfile
     if rep.get("kind") == "no-failing-input-found":
         print(json.dumps(rep, indent=1)[:6000])
         return 1
     C.use_shadow()
-    case = rep["case"]
+    cases = rep["case"]["batch"] if "batch" in rep["case"] else [rep["case"]]
     tmp = tempfile.mkdtemp(prefix="verif-C04-replay-", dir="/tmp")
-    try:
-        path = os.path.join(tmp, "f.parq")
+
+    def job(case):
+        path = os.path.join(tmp, "f%d.parq" % os.getpid())
         S.write_case(case, path)
-        fails = examine(case, path)
-        print("frame: %d rows, columns %s, options %s" % (case["n"], [(c["name"], c["kind"]) for c in case["cols"]], case["opts"]))
-        for cls, det in fails:
-            print("PROPERTY FAILS [%s/%s] row group %s column %s: %s" % (cls["component"], cls["what"], det.get("rg"), det.get("col"), det["detail"]))
-        if not fails:
-            print("property holds on this input now")
-        return 1 if fails else 0
+        return [(cls, det) for cls, det in examine(case, path)]
+    try:
+        bad = 0
+        res = C.pmap(job, cases, nproc=1, job_timeout=300)
+        for case, fails in zip(cases, res):
+            print("frame: %d rows, columns %s, options %s" % (case["n"], [(c["name"], c["kind"]) for c in case["cols"]], case["opts"]))
+            if isinstance(fails, dict) and "__crashed__" in fails:
+                print("PROPERTY FAILS [native-crash]: the real code does not survive this input: %s" % fails["__crashed__"])
+                bad += 1
+                continue
+            for cls, det in fails:
+                print("PROPERTY FAILS [%s/%s] row group %s column %s: %s" % (cls["component"], cls["what"], det.get("rg"), det.get("col"), det["detail"]))
+            if not fails:
+                print("property holds on this input now")
+            bad += len(fails)
+        return 1 if bad else 0
     finally:
         shutil.rmtree(tmp, ignore_errors=True)
